@@ -129,10 +129,10 @@ CLAIMED['C18'] = dict(
 
 CLAIMED['C13'] = dict(
     category='exploration',
-    text='BOUNDED ONLY (no deductive obligations yet). (1) events-from-wire: every raw message recorded under /repo/qa (encoding, api, decoding: all families the project tests, ~200 distinct), the same with printable runs replaced by hostile bytes of the same length, generated OPENs (host name, domain, software version), NOTIFICATIONs (shutdown communication, data), OPERATIONAL advisories and BGP-LS node name / opaque TLVs carrying quotes, backslashes, CR/LF, NUL, DEL, C1 controls, U+2028, invalid UTF-8, JSON punctuation and a forged event line, and generated UPDATEs with one or two malformed attributes; each decoded by the real Message.unpack, rendered by the four real encoders (JSON v6, JSON v4, Text, Text v4) the way Processes does and queued by the real Processes.write. Oracle independent of the encoders: ASCII, one line, parses, no duplicate key in any object, envelope present; text: no control character, same number of lines as the same message with a harmless string; a peer-chosen string changes only string values, never the key structure. (2) oneline-every-code-point: the real oneline() on all 1,114,112 one-character strings -- complete for the per-character claim; oneline maps characters independently (sampled), so every text field that goes through it is printable ASCII.',
-    note='Exploration level, not proof. Not covered: that every peer-derived field of the text encoders goes through oneline() and every string of the JSON encoder through json.dumps (a frame / fragment-typing obligation over response/json.py and the json() methods of ~200 classes: not built); families and sub-TLVs absent from the QA corpus; the negotiated / fsm / signal events. Three in-memory harness canaries (JSON strings unescaped, text unescaped, duplicated attribute members) must be reported on every run. One genuine defect repaired (c02f9be: non-ASCII printable characters made Processes.write raise).',
-    ref='DESIGN.md §6 C13, §11.13',
-    technique='bounded stand-in only: QA corpus + hostile-string generators through the real decoders, encoders and Processes.write with an independent well-formedness oracle; exhaustive evaluation of oneline() per code point (contract-based proof of the assemblers not built yet)',
+    text='STATIC, for all values (json-fragment-typing, pyvc/fragtype.py + contracts/jsonfrag.py): a path-enumerating abstract interpreter over the real AST of class JSON gives every expression a fragment kind (literal text, escaped-safe string content, number, JSON value, member list with its literal keys, raw string); for every path of JSON.up / connected / down / shutdown / negotiated / fsm / signal / notification / packets / keepalive / open / refresh / operational (with _header, _neighbor and the _operational_* helpers inlined) the returned f-string template is DERIVED in the JSON grammar with its holes as nonterminals -- holes between quotes must be escaped-safe, holes elsewhere values / numbers / member lists, a possibly-empty member list never next to a comma -- so the event is a well-formed object for every value of the holes, peer text included; literal keys of one object are pairwise distinct; literal text is ASCII; json.dumps keeps its default ASCII escaping; JSON._string returns a JSON value for a fragment, a number and any other object (92 obligations, decided by a grammar check, no SMT). BOUNDED: (events-from-wire) every raw message recorded under /repo/qa, the same with printable runs replaced by hostile bytes, generated OPEN / NOTIFICATION / OPERATIONAL / BGP-LS messages with hostile strings and generated UPDATEs with one or two malformed attributes, through the real decoders, the four real encoders and the real Processes.write, against an independent oracle (ASCII, one line, parses, no duplicate key, envelope; text: no control character, line count and JSON key structure unchanged by a peer string); (oneline-every-code-point) the real oneline() on all 1,114,112 one-character strings.',
+    note='Exploration level. The static part does NOT cover JSON.update / _update (string surgery in loops) nor the json() methods of the ~200 message / attribute / NLRI classes, which enter as assumed VALUE fragments; its other assumptions (listed in the evidence on every run): json.dumps and hexstring behave as documented, the local host name, the neighbor configuration and a fixed table of message names need no escaping. The text encoders have no static obligation: their holes are typed fields of message objects, covered by the bounded checks and by oneline() being complete per code point. Seven in-memory / edited-source canaries must be reported on every run. One genuine defect repaired (c02f9be).',
+    ref='DESIGN.md §6 C13, §11.13, §11.20',
+    technique='static fragment typing of f-string templates over the real AST (grammar derivation with typed holes; contract-based, decided without SMT) for the JSON assemblers; bounded QA-corpus + hostile-string sweep through the real decoders, encoders and Processes.write; exhaustive oneline() per code point',
 )
 
 CLAIMED['C01'] = dict(
